@@ -1053,6 +1053,142 @@ def task_spectrum_read_wiring(scratch, tier, seed, logdir):
     return [ob.done()]
 
 
+def task_text_write_wiring(scratch, tier, seed, logdir):
+    """C07 / C13: write::Builder::write dispatches on the format; the text writer prints the
+    header, then every value with exactly the requested precision (the `precision` argument reaches
+    the formatter unmodified, for the first value and inside the fold closure)."""
+    fns = fns_for(scratch, "sfs-core")
+    ob = Ob("text_write_wiring", ["spectrum::io::write::Builder::write", "spectrum::io::text::write_spectrum", "text::format_spectrum (+ closure)"], "every path; calls uninterpreted; data flow of the precision argument")
+    try:
+        fld = struct_fields(os.path.join(scratch.src, "core/src/spectrum/io/write.rs"), "Builder")
+        g = mir.find_fn(fns, r"io/write\.rs>::write$", params=["Builder"])
+        seen = set()
+        for p in mir.Exec(g, [], max_paths=100).run({"_1": V("builder", "U"), "_2": ("ref", "$w"), "$w": V("w", "U"), "_3": ("ref", "$sp"), "$sp": V("spectrum", "U")}):
+            if p.end != "return":
+                continue
+            r = show(p.ret)
+            if r.startswith("write_spectrum"):
+                seen.add("text")
+                if r != f"write_spectrum::<W, S>(w, spectrum, field(builder, {fld['precision']}))":
+                    ob.fail("violation", "text output is not write_spectrum(writer, spectrum, self.precision): " + r[:160])
+            elif "write_npy" in r:
+                seen.add("npy")
+                if not re.fullmatch(r"array::Array::<f64>::write_npy::<&mut W>\(refto\(field\(spectrum, 0\)\), w\)", r):
+                    ob.fail("violation", "npy output is not spectrum.array.write_npy(writer): " + r[:160])
+            else:
+                ob.fail("violation", "write::Builder::write returns something else than one of the two writers: " + r[:120])
+        if seen != {"text", "npy"}:
+            ob.fail("inconclusive", f"formats seen: {sorted(seen)}")
+        f = mir.find_fn(fns, r"^format_spectrum$")
+        n = 0
+        for p in mir.Exec(f, [], max_paths=500).run({"_1": ("ref", "$s"), "$s": V("spectrum", "U"), "_2": V("sep", "U"), "_3": V("precision", "int")}):
+            if p.end != "return":
+                continue
+            for e in p.state.events:
+                if re.search(r"Argument::<'_>::from_usize$", e[0]):
+                    n += 1
+                    if show(e[1][0]) != "precision":
+                        ob.fail("violation", "the first value is not printed with the requested precision but with " + show(e[1][0])[:100])
+                if re.search(r"Iterator>::fold::<", e[0]):
+                    cl = show(e[1][2])
+                    if not re.search(r"precision: (?:move |copy )?_\d+|&precision|precision", cl):
+                        ob.fail("inconclusive", "fold closure capture not recognised: " + cl[:120])
+            # any other arithmetic on the precision (min/clamp/...) shows up as a call or operator on it
+            for e in p.state.events:
+                if not re.search(r"from_usize$", e[0]) and any(show(a) == "precision" for a in e[1]):
+                    ob.fail("violation", f"the precision is passed through {e[0][:80]} before formatting")
+        c = mir.find_fn(fns, r"^format_spectrum::\{closure#0\}$")
+        for p in mir.Exec(c, [], max_paths=500).run({"_1": ("ref", "$cl"), "$cl": ("tup", (V("sep_ref", "U"), ("ref", "$prec"))), "$prec": V("precision", "int"),
+                                                     "_2": V("acc", "U"), "_3": ("ref", "$x"), "$x": V("x", "real")}):
+            if p.end != "return":
+                continue
+            for e in p.state.events:
+                if re.search(r"Argument::<'_>::from_usize$", e[0]):
+                    n += 1
+                    if show(e[1][0]) != "precision":
+                        ob.fail("violation", "later values are not printed with the requested precision but with " + show(e[1][0])[:100])
+                elif any(show(a) == "precision" for a in e[1]):
+                    ob.fail("violation", f"the precision is passed through {e[0][:80]} before formatting")
+        if n < 2:
+            ob.fail("inconclusive", "precision arguments of the two format calls not found")
+        ob.d["nonvacuous"] = n >= 2 and seen == {"text", "npy"}
+        ob.d["queries"] += n
+    except (LookupError, ValueError, RuntimeError, KeyError, IndexError) as e:
+        ob.fail("inconclusive", f"translator: {type(e).__name__}: {e}")
+    return [ob.done()]
+
+
+def task_site_builder_build(scratch, tier, seed, logdir):
+    """C02: site::reader::Builder::build accepts a projection target only if it has as many axes as
+    there are populations and no axis is longer than the population allows; every rejection is the
+    matching error; the reader gets the map and the projection that were validated."""
+    fns = fns_for(scratch, "sfs-core")
+    ob = Ob("site_builder_build", ["input::site::reader::Builder::build (+ the `from < to` closure)"], "every acyclic path; calls uninterpreted")
+    try:
+        f = mir.find_fn(fns, r"site/reader/builder\.rs>::build$")
+        paths = mir.Exec(f, [], max_paths=5000).run({"_1": V("builder", "U"), "_2": V("reader", "U")})
+        n_ok = n_err = 0
+        for p in paths:
+            if p.end != "return":
+                continue
+            pcs = [(show(t), c) for t, c in p.state.pc]
+            def cond(pat):
+                for s_, c in pcs:
+                    if re.search(pat, s_):
+                        return c
+                return None
+            empty = cond(r"^input::sample::Map::is_empty\(")
+            unknown = cond(r"^discriminant\(<indexmap::map::Keys<.*find::<")
+            proj = cond(r"^discriminant\(Option::<Project>::map::<Shape")
+            dims = cond(r"^Ne\(Shape::dimensions\(input::sample::Map::shape\(")
+            larger = cond(r"^discriminant\(<Enumerate<Zip<.*find::<")
+            pp = cond(r"^discriminant\(<std::result::Result<PartialProjection, ProjectionError> as Try>::branch\(PartialProjection::from_shape")
+            r = show(p.ret)
+            is0 = lambda c: c is not None and c[0] == "eq" and c[1] in ("0", "false")
+            if r.startswith("ctor:Ok("):
+                n_ok += 1
+                if not (is0(empty) and is0(unknown)):
+                    ob.fail("violation", "a reader is built without the empty-map / unknown-sample checks having passed")
+                if proj == ("eq", "1"):
+                    if not (is0(dims) and is0(larger) and is0(pp)):
+                        ob.fail("violation", "a projecting reader is built although dimensionality / size / zero checks did not all pass: " + str((dims, larger, pp)))
+                    if "ctor:Some(" not in r or "PartialProjection::from_shape" not in r:
+                        ob.fail("violation", "the reader does not get the validated projection")
+                elif proj == ("eq", "0"):
+                    if "ctor:None()" not in r:
+                        ob.fail("violation", "a reader without --project gets a projection")
+                else:
+                    ob.fail("inconclusive", "projection option not on the path")
+                if not r.startswith("ctor:Ok(site::reader::Reader::new_unchecked(reader, "):
+                    ob.fail("violation", "Ok does not carry Reader::new_unchecked(reader, map, projection): " + r[:120])
+            else:
+                n_err += 1
+                if "EmptySamplesMap" in r and is0(empty):
+                    ob.fail("violation", "EmptySamplesMap for a non-empty map")
+                if "UnknownSample" in r and unknown != ("eq", "1"):
+                    ob.fail("violation", "UnknownSample although every listed sample is in the input")
+                if "UnequalDimensions" in r and not (dims and dims[0] == "notin"):
+                    ob.fail("violation", "UnequalDimensions although the dimensions are equal")
+                if "InvalidProjection" in r and larger != ("eq", "1"):
+                    ob.fail("violation", "InvalidProjection although no axis of the target is larger")
+        if n_ok < 4 or n_err < 4:
+            ob.fail("inconclusive", f"{n_ok} accepting / {n_err} rejecting paths found")
+        # the closure that looks for an axis where the target is larger
+        cl = [x for x in fns if re.search(r"site/reader/builder\.rs>::build::\{closure#\d\}$", mir.norm_name(x.name)) and ("Lt(" in x.text or "PartialOrd>::lt" in x.text)]
+        okc = False
+        for c in cl:
+            for cp in mir.Exec(c, []).run({"_1": V("cl", "U"), "_2": ("ref", "$item"), "$item": ("tup", (V("i", "int"), ("tup", (("ref", "$from"), ("ref", "$to"))))), "$from": V("from", "int"), "$to": V("to", "int")}):
+                if cp.end == "return" and re.fullmatch(r"(?:Lt|<&+usize as PartialOrd>::lt)\((?:refto\()*&?\$?from\)*, (?:refto\()*&?\$?to\)*\)", show(cp.ret)):
+                    okc = True
+        if not okc:
+            ob.fail("violation" if cl else "inconclusive", "the size check is not `population length < target length` per axis")
+        ob.d["nonvacuous"] = n_ok >= 4 and n_err >= 4
+        ob.d["queries"] += len(paths)
+    except (LookupError, ValueError, RuntimeError, KeyError, IndexError) as e:
+        ob.fail("inconclusive", f"translator: {type(e).__name__}: {e}")
+    return [ob.done()]
+
+
 def task_main_exit(scratch, tier, seed, logdir):
     """C10 / C16 / C17: main maps every Err of run() to a message on stderr and exit status 1."""
     fns = fns_for(scratch, "sfs-cli")
@@ -1130,6 +1266,8 @@ TASKS = {
     "read_array_wiring": task_read_array_wiring,
     "main_exit": task_main_exit,
     "spectrum_read_wiring": task_spectrum_read_wiring,
+    "text_write_wiring": task_text_write_wiring,
+    "site_builder_build": task_site_builder_build,
     "shape_closures": task_shape_closures,
 }
 
